@@ -38,11 +38,15 @@ const (
 	lOpenDevFull
 	lWaitOpen
 	lCloseW
+	lBeginReadA  // read transaction on handle A
+	lEndReadA    //
+	lAsyncCloseA // File.Close of A in a goroutine: blocks while the read transaction is open
 	lNumOps
 )
 
 var lockOpNames = []string{"OpenA", "OpenB", "CloseA", "CloseB", "Open(invalid options)", "Open(both headers damaged)", "Open(file truncated inside header)",
-	"Open(new file, max size below minimum)", "Open(path -> /dev/full)", "Open(wait flag) in goroutine", "CloseW"}
+	"Open(new file, max size below minimum)", "Open(path -> /dev/full)", "Open(wait flag) in goroutine", "CloseW",
+	"BeginReadonly on A", "end read tx on A", "CloseA in goroutine"}
 
 func lockSeqString(seq []int) string {
 	var s []string
@@ -78,6 +82,8 @@ type LockSeqResult struct {
 
 type lockWorld struct {
 	dir, path     string
+	readA         *txfile.Tx
+	closingA      chan error // CloseA running in a goroutine
 	a, b, w       *txfile.File
 	waiting       chan waitResult
 	waiterStarted bool
@@ -97,7 +103,7 @@ func validOpts() txfile.Options {
 func (w *lockWorld) held() bool { return w.a != nil || w.b != nil || w.w != nil }
 
 func (w *lockWorld) state() string {
-	return fmt.Sprintf("a=%v b=%v w=%v waiting=%v created=%v", w.a != nil, w.b != nil, w.w != nil, w.waiting != nil, w.created)
+	return fmt.Sprintf("a=%v b=%v w=%v waiting=%v created=%v readA=%v closingA=%v", w.a != nil, w.b != nil, w.w != nil, w.waiting != nil, w.created, w.readA != nil, w.closingA != nil)
 }
 
 func (w *lockWorld) add(class, format string, args ...interface{}) {
@@ -111,7 +117,13 @@ func (w *lockWorld) enabled(op int) bool {
 	case lOpenB:
 		return w.b == nil
 	case lCloseA:
-		return w.a != nil
+		return w.a != nil && w.readA == nil && w.closingA == nil
+	case lBeginReadA:
+		return w.a != nil && w.readA == nil && w.closingA == nil
+	case lEndReadA:
+		return w.readA != nil
+	case lAsyncCloseA:
+		return w.a != nil && w.readA != nil && w.closingA == nil
 	case lCloseB:
 		return w.b != nil
 	case lCloseW:
@@ -294,6 +306,42 @@ func (w *lockWorld) apply(op int) {
 		w.closeSlot(&w.b, "CloseB")
 	case lCloseW:
 		w.closeSlot(&w.w, "CloseW")
+	case lBeginReadA:
+		tx, err := w.a.BeginReadonly()
+		if err != nil {
+			w.add("pathlock/begin-error", "BeginReadonly failed: %v", err)
+			return
+		}
+		w.readA = tx
+	case lAsyncCloseA:
+		ch := make(chan error, 1)
+		f := w.a
+		go func() { ch <- f.Close() }()
+		w.closingA = ch
+		time.Sleep(15 * time.Millisecond)
+		select {
+		case <-ch:
+			w.add("pathlock/close-did-not-wait", "File.Close returned while a read transaction is still open")
+			w.closingA, w.a, w.readA = nil, nil, nil
+		default:
+		}
+	case lEndReadA:
+		if err := w.readA.Close(); err != nil {
+			w.add("pathlock/close-error", "read Tx.Close failed: %v", err)
+		}
+		w.readA = nil
+		if w.closingA != nil {
+			select {
+			case err := <-w.closingA:
+				if err != nil {
+					w.add("pathlock/close-error", "File.Close failed: %v", err)
+				}
+			case <-time.After(60 * time.Second):
+				w.add("pathlock/close-stuck", "File.Close did not return within 60s after the last transaction ended")
+			}
+			w.closingA, w.a = nil, nil
+			w.collectWaiter(true)
+		}
 	case lOpenInvalid:
 		holder := w.held()
 		_, err, pn := w.open(txfile.Options{MaxSize: 128 * 1024, PageSize: 1000})
@@ -356,6 +404,17 @@ func (w *lockWorld) apply(op int) {
 }
 
 func (w *lockWorld) cleanup() {
+	if w.readA != nil {
+		pagedrv.Try(func() { w.readA.Close() })
+		w.readA = nil
+	}
+	if w.closingA != nil {
+		select {
+		case <-w.closingA:
+		case <-time.After(60 * time.Second):
+		}
+		w.closingA, w.a = nil, nil
+	}
 	for _, s := range []**txfile.File{&w.a, &w.b, &w.w} {
 		if *s != nil {
 			pagedrv.Try(func() { (*s).Close() })
@@ -394,7 +453,10 @@ func runLockSeq(base string, seq []int) (viol []pagedrv.Violation, states []stri
 	}
 	// finally: close everything; the path must be openable again
 	if len(w.viol) == 0 {
-		for w.a != nil || w.b != nil || w.w != nil || w.waiting != nil {
+		if w.readA != nil {
+			w.apply(lEndReadA)
+		}
+		for len(w.viol) == 0 && (w.a != nil || w.b != nil || w.w != nil || w.waiting != nil) {
 			switch {
 			case w.a != nil:
 				w.closeSlot(&w.a, "CloseA")
